@@ -67,6 +67,9 @@ var scenarios = []scenario{
 		run(pub(1, "k"))
 		return pub(3, "k")
 	}},
+	// a batch far larger than any internal chunk size: still one all-or-nothing request (the
+	// statement positions are sampled: first, last, commit, and spread over the batch)
+	{"publish-large", func(e *Env, run func(*Op) *Obs) *Op { baseSetup(run, false, false); return pub(150, "") }},
 	{"create-topic", func(e *Env, run func(*Op) *Obs) *Op {
 		baseSetup(run, false, false)
 		return &Op{Kind: "CreateTopic", Name: "projects/p/topics/new"}
@@ -397,6 +400,11 @@ func cmdFaultEnum(args []string) error {
 	for _, c := range cs {
 		K := len(c.calls)
 		ks := []int{}
+		maxK := maxK
+		if c.sc.Name == "publish-large" {
+			mk := 14
+			maxK = &mk
+		}
 		if *maxK == 0 || K <= *maxK {
 			for k := 1; k <= K; k++ {
 				ks = append(ks, k)
